@@ -1,0 +1,12 @@
+//go:build verif
+
+package utils
+
+import db "github.com/tendermint/tm-db"
+
+// NewStorageWithDBs builds a Storage over the given databases (verification harness only, build tag
+// verif): lets the harness interpose write-intercepting wrappers and reopen the same stores.
+// Add-only file.
+func NewStorageWithDBs(home, config string, eventDB, stateDB, snapshotDB db.DB) *Storage {
+	return &Storage{eventDB: eventDB, stateDB: stateDB, snapshotDB: snapshotDB, minterConfig: config, minterHome: home}
+}
